@@ -315,14 +315,18 @@ theorem opt_rep_restore_position (g : G) (s : List Nat) (f : Nat) (a : P) (sk : 
       simp only [M.run] at h
       grind
 
-/-- behaviour of the code recorded as such: `named` replaces the error, the fatal flag is lost -/
-theorem named_clears_fatal {g : G} {a : P} {sk : Sk} {inp : List Nat} {ft : Bool}
-    (h : Derives g (.named a) sk inp (.err ft)) : ft = false := by
-  generalize hx : Res.err ft = x at h
-  cases h with
-  | namedErr _ => cases hx; rfl
-  | sugar hs _ => simp [IsSugar] at hs
-  | _ => cases hx
+/-- `named` only replaces the error message: it fails exactly when the wrapped parser fails, with the same
+fatal flag (repaired in af6c285; before, the flag was dropped and naming a parser re-enabled backtracking). -/
+theorem named_keeps_fatal {g : G} {a : P} {sk : Sk} {inp : List Nat} {ft : Bool} :
+    Derives g (.named a) sk inp (.err ft) ↔ Derives g a sk inp (.err ft) := by
+  constructor
+  · intro h
+    generalize hx : Res.err ft = x at h
+    cases h with
+    | namedErr h0 => cases hx; exact h0
+    | sugar hs _ => simp [IsSugar] at hs
+    | _ => cases hx
+  · exact .namedErr
 
 /-- behaviour of the code recorded as such: `not_` turns *any* failure, also a fatal one, into success -/
 theorem not_swallows_fatal {g : G} {a : P} {sk : Sk} {inp : List Nat}
